@@ -1475,10 +1475,26 @@ func ruleFormatState(c *eng.Ctx) {
 	// requires: methods that dereference a reader unconditionally (need that format on entry)
 	methods := extractorMethods(c.P)
 
-	isFormatLoad := func(v ssa.Value) bool {
+	isFormatField := func(v ssa.Value) bool {
 		fr, ok := eng.LoadOfField(v)
 		return ok && fr.Field == "format" && strings.HasSuffix(fr.Struct, "tabula.Extractor")
 	}
+	// what stands for "the document's format" in the function being analysed: the extractor's field, or (in a plain
+	// function that is handed the format) that parameter
+	var formatParam ssa.Value
+	isFormatLoad := func(v ssa.Value) bool {
+		if formatParam != nil {
+			return v == formatParam
+		}
+		return isFormatField(v)
+	}
+	// plain functions that take the format as a parameter: position of the parameter and the formats under which they
+	// return a nil error
+	type paramSummary struct {
+		idx int
+		es  fset
+	}
+	paramEnsures := map[*ssa.Function]paramSummary{}
 	// dataflow over one function: possible formats at block entry
 	analyse := func(fn *ssa.Function, entry fset) map[*ssa.BasicBlock]fset {
 		in := map[*ssa.BasicBlock]fset{}
@@ -1546,6 +1562,13 @@ func ruleFormatState(c *eng.Ctx) {
 										}
 									}
 								}
+								if ps, ok := paramEnsures[cal]; ok && ps.idx < len(call.Call.Args) && isFormatLoad(call.Call.Args[ps.idx]) {
+									for v := range out {
+										if !ps.es[v] {
+											delete(out, v)
+										}
+									}
+								}
 							}
 						}
 					}
@@ -1588,6 +1611,36 @@ func ruleFormatState(c *eng.Ctx) {
 			}
 		}
 		return in
+	}
+	// 0) summaries of plain functions of the package that are handed the format (requirePDF(e.format, op))
+	for _, fn := range c.P.ModuleFuncs() {
+		if fn.Pkg == nil || fn.Blocks == nil || fn.Parent() != nil || fn.Signature.Recv() != nil || eng.ShortPath(fn.Pkg.Pkg.Path()) != "" {
+			continue
+		}
+		res := fn.Signature.Results()
+		if res.Len() == 0 || !eng.IsErrorType(res.At(res.Len()-1).Type()) {
+			continue
+		}
+		for i, p := range fn.Params {
+			if !types.Identical(p.Type(), ft) {
+				continue
+			}
+			formatParam = p
+			in := analyse(fn, full())
+			es := fset{}
+			for _, r := range eng.Returns(fn) {
+				vals := eng.ReturnValues(r)
+				nn, known := eng.ErrValueNonNil(vals[len(vals)-1])
+				if known && nn {
+					continue
+				}
+				for v := range in[r.Block()] {
+					es[v] = true
+				}
+			}
+			formatParam = nil
+			paramEnsures[fn] = paramSummary{i, es}
+		}
 	}
 	// 1) ensures summaries (two rounds so that helpers calling helpers settle)
 	for round := 0; round < 2; round++ {
